@@ -115,6 +115,8 @@ type Run struct {
 	// Looked records what every successful user lookup returned (name -> objects in order of arrival)
 	lookedMu sync.Mutex
 	Looked   map[string][]any
+	// LookErrs records the errors user lookups were answered with (name -> messages in order of arrival)
+	LookErrs map[string][]string
 }
 
 // Tagger is the harness-supplied definition scanner: it supplies the tag of every slot per
@@ -353,6 +355,14 @@ func (r *Run) UserLookup(name string) (any, error) {
 			r.Looked = map[string][]any{}
 		}
 		r.Looked[name] = append(r.Looked[name], v)
+		r.lookedMu.Unlock()
+	}
+	if err != nil {
+		r.lookedMu.Lock()
+		if r.LookErrs == nil {
+			r.LookErrs = map[string][]string{}
+		}
+		r.LookErrs[name] = append(r.LookErrs[name], err.Error())
 		r.lookedMu.Unlock()
 	}
 	r.Tracer.Mark("user-lookup", "ret", name)
